@@ -396,7 +396,21 @@ func checkSearch(r *kit.Run, c Case) {
 	}
 	if res.State.SeqNum != uint64(want) {
 		r.Add("wrong_state", 1)
-		viol(r, "wrong-state/"+sit,
+		// how the wrong answer came about: was the state that should have been
+		// returned ever requested? (a search that gives up never asks for it, a
+		// wrong comparison asks for it and then returns another one)
+		how := "wanted-state-never-requested"
+		for _, q := range res.Reqs {
+			if seq, cur, ok := d.parseStateURL(q.URL); ok && !cur && seq == uint64(want) {
+				how = "wanted-state-requested"
+			}
+		}
+		if res.State.SeqNum < uint64(want) {
+			how += "-answer-too-early"
+		} else {
+			how += "-answer-too-late"
+		}
+		viol(r, "wrong-state/"+sit+"/"+how,
 			fmt.Sprintf("%s: got state %d, want %d; requests: %s", desc, res.State.SeqNum, want, trace(res.Reqs, d, 40)), ac)
 		return
 	}
